@@ -131,3 +131,7 @@ Check (C07_init_segment_carries_stream_configuration_av1 : (forall c s a d,
       | None => false end
   | None => false
   end = true)%type).
+Check (C07_vp9_parser_rejects_every_conforming_key_frame_refuted : (forall h rest,
+  is_valid_vp9_frame (vp9_key_frame h rest) = false /\
+  extract_vp9_config (vp9_key_frame h rest) = None /\
+  is_vp9_keyframe (vp9_key_frame h rest) <> Vp9Key true)%type).
